@@ -66,9 +66,69 @@ func cmdSweep(args []string) int {
 			}
 		}
 		vc.obls = keep
-		if len(keep) > 0 {
+		if len(keep) > 0 || os.Getenv("GOVC_SWEEP_EMIT") != "" {
 			vcs = append(vcs, vc)
 		}
+	}
+	emit := os.Getenv("GOVC_SWEEP_EMIT") != ""
+	if emit {
+		// first without any assumption on the parameters; the functions that need none get a stub without requires
+		var plain []*FuncVC
+		for _, vc := range vcs {
+			pv := NewFuncVC(P, S, vc.fn, vc.con)
+			func() {
+				defer func() { recover() }()
+				pv.Encode()
+			}()
+			var keep []*Obligation
+			for _, o := range pv.obls {
+				if strings.HasPrefix(o.Kind, "panic:") {
+					keep = append(keep, o)
+				}
+			}
+			pv.obls = keep
+			plain = append(plain, pv)
+		}
+		Discharge(plain, RunOpts{TimeoutS: 10, Solvers: []string{"z3-new", "z3", "cvc5"}, TmpDir: tmp, Jobs: 8})
+		noReq := map[string]bool{}
+		for _, pv := range plain {
+			ok := true
+			for _, o := range pv.obls {
+				if !o.OK {
+					ok = false
+				}
+			}
+			noReq[pv.key] = ok
+		}
+		defer func() {
+			for _, vc := range vcs {
+				ok := true
+				for _, o := range vc.obls {
+					if !o.OK {
+						ok = false
+					}
+				}
+				if !ok {
+					continue
+				}
+				fmt.Printf("STUB %s\n//@ func %s\n//@ props C12\n", vc.fn.Pkg.Pkg.Path(), strings.TrimPrefix(vc.key, shortPkg(vc.fn.Pkg.Pkg.Path())+"."))
+				if !noReq[vc.key] {
+					var rs []string
+					for _, p := range vc.fn.Params {
+						switch under(p.Type()).(type) {
+						case *types.Pointer, *types.Map, *types.Interface:
+							rs = append(rs, p.Name()+" != nil")
+						case *types.Signature:
+							rs = append(rs, "nonnil("+p.Name()+")")
+						}
+					}
+					if len(rs) > 0 {
+						fmt.Printf("//@ requires %s\n", strings.Join(rs, " && "))
+					}
+				}
+				fmt.Printf("//@ modifies any\n\n")
+			}
+		}()
 	}
 	Discharge(vcs, RunOpts{TimeoutS: 10, Solvers: []string{"z3-new", "z3", "cvc5"}, TmpDir: tmp, Jobs: 8})
 	nf, nt := 0, 0
